@@ -373,6 +373,24 @@ Proof. assert (G0 : good []) by (intros y E W H; discriminate).
   destruct (get m x) as [[Ex Wx]|] eqn:Gx; [|exfalso; apply (B x Hx Gx)].
   exists Ex, Wx. split; [reflexivity|]. destruct (A x Ex Wx Gx) as [P [Q _]]. split; assumption. Qed.
 
+(* the table is defined on keys only *)
+Lemma conn_U x : In x U -> forall p y, conn x p y -> In y U.
+Proof. intros Hx p y H. induction H as [|p y z H IH Hz|p y z H IH Hz]; [exact Hx | apply (proj1 (U_closed y IH) z Hz) | apply (proj2 (U_closed y IH) z Hz)]. Qed.
+Lemma outerc_dom : forall ks m m', (forall x, In x ks -> In x U) -> good m -> (forall y, get m y <> None -> In y U) ->
+  outerc ks m = OOk m' -> forall y, get m' y <> None -> In y U.
+Proof. induction ks as [|x ks IH]; intros m m' HU G D E; cbn [Propagate.outerc] in E.
+  - inversion E; subst. exact D.
+  - destruct (get m x) eqn:Gx.
+    + apply (IH m m' (fun y Hy => HU y (or_intror Hy)) G D E).
+    + destruct (loopc_total_exact x m (HU x (or_introl eq_refl)) G Gx) as [s' [Hs [HE HW]]]. rewrite Hs in E.
+      apply (IH _ m' (fun y Hy => HU y (or_intror Hy)) (good_assign x m s' HE HW G)); [|exact E].
+      intros y Hy. rewrite !get_assign in Hy. destruct (mem y (wcs s')) eqn:M1.
+      * apply mem_In in M1. apply HW in M1. apply (conn_U x (HU x (or_introl eq_refl)) _ _ M1).
+      * destruct (mem y (eqs s')) eqn:M2; [|apply D, Hy]. apply mem_In in M2. apply HE in M2. apply (conn_U x (HU x (or_introl eq_refl)) _ _ M2). Qed.
+Theorem propagate_dom m : propagate eq wc U = OOk m -> forall y, get m y <> None -> In y U.
+Proof. intros E. assert (G0 : good []) by (intros y E0 W H; discriminate).
+  apply (outerc_dom U [] m (fun _ H => H) G0); [intros y H; exfalso; apply H; reflexivity | exact E]. Qed.
+
 End Closure.
 
 (* conn only depends on link membership, not on the order of adjacency lists *)
